@@ -43,3 +43,13 @@ Definition c09_head_sched : list (tid * nat) :=
    (0,0);(0,0);(0,0);(0,0);(0,0);(0,0);
    (0,0);(0,0);(0,0);(0,0);(0,0);(0,0);(0,0); (0,0); (0,0);(0,0);(0,0);(0,0); (0,0);(0,0);(0,0);(0,0);(0,0); (0,0);
    (0,0);(0,0);(0,0);(0,0);(0,0);(0,0)].
+
+(* Why C08_fair_termination needs STRONG fairness: T0 and T1 share a batch, T1 executes and polls (R0..R7) while member
+   T0 has not yet taken the internal condition's lock (N2).  The eight polling steps return to the same state: an infinite
+   schedule that repeats them is weakly fair (T0 is not continuously enabled: it is disabled whenever T1 holds the
+   condition's lock) and never completes T0's call. *)
+Definition lasso_calls : list (list (list pub)) := [[[1]]; [[2]]].
+Definition lasso_prefix : list (tid * nat) :=
+  [(0,0);(0,0);(0,0);(0,0);(0,0);(0,0);(0,0); (1,0);(1,0);(1,0);(1,0);(1,0);(1,0);(1,0); (0,0);(0,0);
+   (1,0);(1,0);(1,0);(1,0);(1,0);(1,0);(1,0);(1,0);(1,0);(1,0)].
+Definition lasso_cycle : list (tid * nat) := [(1,0);(1,0);(1,0);(1,1);(1,0);(1,0);(1,0);(1,0)].
